@@ -234,6 +234,7 @@ func runC13(c *Ctx) {
 	// ================= R4 =================
 	x.findDispatch()
 	x.lookupBounds()
+	x.prefixSkipSet()
 }
 
 // pairing checks the sibling-link idioms of one function.
@@ -998,3 +999,127 @@ func (x *c13) lookupBounds() {
 }
 
 func m2callee(m *Module, call *ssa.Call) *ssa.Function { return m.callee(call.Common()) }
+
+// C13.R4 (prefix-skip-set): before each name segment findRelative skips the
+// bytes the parser left in a raw multi-name path (dual/multi prefixes, the
+// segment count). The skipping must stop exactly at a lead name character
+// ('A'..'Z', '_'): a digit is a legal segment count (48..57 segments), any other
+// stop set makes some well-formed path unresolvable. Decided for all 256 byte
+// values: the byte is touched only through comparisons with constants, so one
+// evaluation per value is exact.
+func (x *c13) prefixSkipSet() {
+	c, m := x.c, x.m
+	const aml = "device/acpi/aml"
+	rel := m.lookupMethod(aml, "ObjectTree", "findRelative")
+	if rel == nil {
+		c.unresolved("C13.R4", "ObjectTree.findRelative")
+		return
+	}
+	key := "prefix-skip-set " + m.fnName(rel)
+	g := newIG(m, rel, nil)
+	exprP := paramNamed(rel, "expr")
+	// the skip loop: the innermost loop whose header variable indexes expr in
+	// comparisons with constants and whose body does nothing but advance it
+	type cand struct {
+		phi   *ssa.Phi
+		latch int
+	}
+	var cands []cand
+	for _, b := range rel.Blocks {
+		h, body := loopOf(b)
+		if h != b {
+			continue
+		}
+		for _, in := range h.Instrs {
+			phi, ok := in.(*ssa.Phi)
+			if !ok {
+				break
+			}
+			if !isIntegral(phi.Type()) {
+				continue
+			}
+			// a back edge phi+1 from a block that contains nothing else
+			for i, e := range phi.Edges {
+				p := h.Preds[i]
+				if !body[p] {
+					continue
+				}
+				if s, ok := stepOf(e, phi); !ok || s != 1 {
+					continue
+				}
+				pure := true
+				for _, pin := range p.Instrs {
+					switch pin.(type) {
+					case *ssa.BinOp, *ssa.Jump, *ssa.DebugRef, *ssa.Convert:
+					default:
+						pure = false
+					}
+				}
+				nBody := 0
+				for bb := range body {
+					for _, bin := range bb.Instrs {
+						switch bin.(type) {
+						case *ssa.Call, *ssa.Store, *ssa.Return:
+							nBody++
+						}
+					}
+				}
+				if pure && nBody == 0 {
+					cands = append(cands, cand{phi, g.First[p]})
+				}
+			}
+		}
+	}
+	// (of those, the one that compares expr[its variable] with constants)
+	if exprP != nil {
+		var keep []cand
+		for _, cd := range cands {
+			cd := cd
+			isB := func(v ssa.Value) bool {
+				ld, ok := stripConv(v).(*ssa.UnOp)
+				if !ok || ld.Op != token.MUL {
+					return false
+				}
+				ia, ok := ld.X.(*ssa.IndexAddr)
+				return ok && ia.X == ssa.Value(exprP) && stripConv(ia.Index) == ssa.Value(cd.phi)
+			}
+			if len(comparedConstants(g, isB)) > 0 {
+				keep = append(keep, cd)
+			}
+		}
+		cands = keep
+	}
+	if len(cands) != 1 || exprP == nil {
+		c.undecided("C13.R4", key, fmt.Sprintf("expected one prefix-skipping loop in findRelative, found %d", len(cands)))
+		return
+	}
+	sk := cands[0]
+	isByte := func(v ssa.Value) bool {
+		ld, ok := stripConv(v).(*ssa.UnOp)
+		if !ok || ld.Op != token.MUL {
+			return false
+		}
+		ia, ok := ld.X.(*ssa.IndexAddr)
+		return ok && ia.X == ssa.Value(exprP) && stripConv(ia.Index) == ssa.Value(sk.phi)
+	}
+	if len(comparedConstants(g, isByte)) == 0 {
+		c.fail("C13.R4", key, "the skipping loop does not look at the path bytes", g.posOf(sk.latch))
+		return
+	}
+	var wrong []string
+	for v := uint64(0); v < 256; v++ {
+		skips := reachableForValue(g, sk.latch, isByte, v)
+		lead := v == '_' || (v >= 'A' && v <= 'Z')
+		if skips == lead {
+			if len(wrong) < 6 {
+				what := "is skipped although it starts a name segment"
+				if !skips {
+					what = "stops the skipping although it is not a lead name character"
+				}
+				wrong = append(wrong, fmt.Sprintf("byte %#x %s", v, what))
+			}
+		}
+	}
+	c.check(len(wrong) == 0, "C13.R4", key, "256 byte values evaluated: skipping continues exactly for the bytes that are not 'A'..'Z' or '_'",
+		strings.Join(wrong, "; ")+" (a raw multi-name path with such a byte before a segment is resolved wrongly)", g.posOf(sk.latch))
+}
